@@ -244,6 +244,18 @@ func (b *Built) Note(rs RouteSpec) {
 	b.Spec[rs.Method+" "+rs.Pattern] = rs
 }
 
+// Forget removes a route from the reference bookkeeping (after a deletion made by other means).
+func (b *Built) Forget(rs RouteSpec) {
+	ps := b.ByMethod[rs.Method]
+	for i, p := range ps {
+		if p.S == rs.Pattern {
+			b.ByMethod[rs.Method] = append(append([]*ref.Pattern(nil), ps[:i]...), ps[i+1:]...)
+			break
+		}
+	}
+	delete(b.Spec, rs.Method+" "+rs.Pattern)
+}
+
 // SlashMode returns the effective trailing-slash mode of a registered route: "ignore", "redirect" or "".
 func (b *Built) SlashMode(method, pattern string) string {
 	rs := b.Spec[method+" "+pattern]
@@ -477,6 +489,23 @@ func SelfCheck(q Req, got Obs) string {
 	}
 	if s != want {
 		return fmt.Sprintf("substitution gives %q, request is %q", s, want)
+	}
+	return ""
+}
+
+// EntryAgreement checks that Reverse and Iter.Reverse of a lookuper give the same answer as its Lookup gave (got):
+// same route and trailing-slash flag for Reverse; Iter.Reverse yields the route for a direct match, and for a
+// slash-adjusted one only when the route has redirect or ignore enabled (its documented contract). "" = agreement.
+func EntryAgreement(l Lookuper, q Req, got Obs) string {
+	rev := ReverseObs(l, q)
+	if rev.Pattern != got.Pattern || rev.Tsr != got.Tsr || rev.Route != got.Route {
+		return fmt.Sprintf("Reverse disagrees with Lookup\nLookup:  %s\nReverse: %s", got, rev)
+	}
+	its := IterReverseObs(l, q)
+	gotDirect := got.Pattern != "" && !got.Tsr
+	wantIt := gotDirect || (got.Pattern != "" && got.Tsr && (got.Route.IgnoreTrailingSlashEnabled() || got.Route.RedirectTrailingSlashEnabled()))
+	if wantIt != (len(its) == 1) || (len(its) == 1 && its[0] != got.Route) {
+		return fmt.Sprintf("Iter.Reverse disagrees with Lookup\nLookup: %s\nIter.Reverse yielded %d route(s)", got, len(its))
 	}
 	return ""
 }
